@@ -751,90 +751,55 @@ theorem readWindow_readBlock_linebased_block_size_independent (a1 a2 : Ascii) (h
   ⟨fun sq C W hW => EmblWin.readWindow_fwd_linebased_block_size_independent a1 a2 sq C W h hf hW,
    fun b maxRes maxSeq maxInit => EmblWin.readBlock_short_linebased_block_size_independent a1 a2 b maxRes maxSeq maxInit h hf⟩
 
-/-! ## The line-geometry tracker of `seebuf`: the EXACT predicate `bpl, rpl > 0` guarantees
+/-! ## The line-geometry tracker of `seebuf` (`seebuf_linegeometry()`, repaired by 283ccd7): the EXACT predicate `bpl, rpl > 0` guarantees
 
 The reverse-window theorems `rev_window_eq_revcomp_slice_line` / `_residue` assume the geometry that `bpl, rpl > 0` is meant to promise.
-What the tracker really promises is characterised here by an `iff` for every scan of whole records (`Tracker.events`: a header event per
-record, one end-of-line event per terminated line with that line's bytes and residues): a *pair* is two consecutive terminated lines of
-the same record; `allPairs` lists them in file order. -/
+Here that promise is a theorem, and an `iff`: for every scan of whole records from a fresh handle — a record is `header_*` followed by its
+data lines, each seen to its end by `Track.onEol b r` (terminated: `b` bytes with the newline, `r` residues) or, for an unterminated last
+line, by `Track.onStop b r` — `bpl` and `rpl` are BOTH positive at the end exactly when the file has the constant geometry. -/
 section tracker
-open EaselModel.Sqio.Tracker EaselModel.Sqio.TrackerExact
+open EaselModel.Sqio.TrackerExact
 
-/-- **`rpl = p > 0` after a scan ⇔ there is a pair, every pair's first line has exactly `p` residues, and every pair but the first of the
-    scan has a second line of at most `p` residues.** Nothing else: the second line of the first pair (where `rpl` is initialised) and the
-    only line of a one-line record are unconstrained — the known finding, as the exact boundary of what is guaranteed. -/
-theorem tracker_rpl_iff (recs : List (List (Int × Int))) (p : Int) (hp : 0 < p) (h : ∀ ls ∈ recs, ∀ l ∈ ls, 0 ≤ l.2) :
-    (run {} (events recs)).rpl = p ↔
-      ∃ q rest, allPairs (recs.map (·.map Prod.snd)) = q :: rest ∧ q.1 = p ∧ ∀ x ∈ rest, x.1 = p ∧ x.2 ≤ p := by
-  rw [run_rpl_closed recs {} h]
-  refine feed_unset_iff _ p hp (allPairs_nonneg _ ?_)
-  intro ds hds d hd
-  obtain ⟨ls, hls, rfl⟩ := List.mem_map.mp hds
-  obtain ⟨l, hl, rfl⟩ := List.mem_map.mp hd
-  exact h ls hls l hl
+/-- **`rpl = p > 0 ∧ bpl = w > 0` after the scan ⇔ (some line is followed by another line of its record) ∧ (every line that is followed
+    by another line of its record has exactly `w` bytes and `p` residues) ∧ (EVERY line — last, only or unterminated line of a record
+    included — has at most `p` residues and at most `w − p − 1` ignored bytes besides its newline).** The former exceptions (a one-line
+    record, the line at which `rpl` is initialised, an unterminated last line, a blank in a last line under `bpl = rpl + 1`) are gone:
+    this replaces the `_partial` soundness statement and the known finding. -/
+theorem tracker_iff (recs : List (List Line)) (hok : ∀ rec ∈ recs, ∀ l ∈ rec, l.Ok)
+    (hterm : ∀ rec ∈ recs, ∀ l ∈ rec.dropLast, l.eol = true) (p w : Int) (hp : 0 < p) (hw : 0 < w) :
+    ((runFile {} recs).rpl = p ∧ (runFile {} recs).bpl = w) ↔
+      (∃ rec ∈ recs, ∃ l, l ∈ rec.dropLast) ∧
+      (∀ rec ∈ recs, ∀ l ∈ rec.dropLast, l.b = w ∧ l.r = p) ∧
+      (∀ rec ∈ recs, ∀ l ∈ rec, l.r ≤ p ∧ l.x ≤ w - p - 1) :=
+  TrackerExact.tracker_iff recs hok hterm p w hp hw
 
-/-- the same for bytes per line -/
-theorem tracker_bpl_iff (recs : List (List (Int × Int))) (p : Int) (hp : 0 < p) (h : ∀ ls ∈ recs, ∀ l ∈ ls, 0 ≤ l.1) :
-    (run {} (events recs)).bpl = p ↔
-      ∃ q rest, allPairs (recs.map (·.map Prod.fst)) = q :: rest ∧ q.1 = p ∧ ∀ x ∈ rest, x.1 = p ∧ x.2 ≤ p := by
-  rw [run_bpl_closed recs {} h]
-  refine feed_unset_iff _ p hp (allPairs_nonneg _ ?_)
-  intro ds hds d hd
-  obtain ⟨ls, hls, rfl⟩ := List.mem_map.mp hds
-  obtain ⟨l, hl, rfl⟩ := List.mem_map.mp hd
-  exact h ls hls l hl
+/-- **Soundness, as the reverse-window / FetchSubseq arithmetic uses it**: with `rpl = p > 0` and `bpl = w > 0` after the scan, in every
+    record the lines in front of any line are full lines (`w` bytes, `p` residues: `Geometry.FullLines`), and no line holds more than `p`
+    residues — so residue `start` of a record lies on its line `(start − 1) / p`, at byte `((start − 1) / p) · w` + a position within that
+    line; under `w = p + 1` (residue addressing) no line has any ignored byte, so residue `i` of a line is its byte `i`. -/
+theorem tracker_sound (recs : List (List Line)) (hok : ∀ rec ∈ recs, ∀ l ∈ rec, l.Ok)
+    (hterm : ∀ rec ∈ recs, ∀ l ∈ rec.dropLast, l.eol = true) (p w : Int) (hp : 0 < p) (hw : 0 < w)
+    (h : (runFile {} recs).rpl = p ∧ (runFile {} recs).bpl = w) :
+    (∀ rec ∈ recs, ∀ l ∈ rec.dropLast, l.b = w ∧ l.r = p) ∧ (∀ rec ∈ recs, ∀ l ∈ rec, l.r ≤ p) ∧
+    (w = p + 1 → ∀ rec ∈ recs, ∀ l ∈ rec, l.x = 0) := by
+  obtain ⟨_, h2, h3⟩ := (TrackerExact.tracker_iff recs hok hterm p w hp hw).mp h
+  refine ⟨h2, fun rec hrec l hl => (h3 rec hrec l hl).1, fun hwp rec hrec l hl => ?_⟩
+  have a := (h3 rec hrec l hl).2
+  have b := (hok rec hrec l hl).2.2
+  omega
 
-/-- `rpl` stays unset (`−1`) ⇔ no record of the scan has two terminated lines -/
-theorem tracker_rpl_unset_iff (recs : List (List (Int × Int))) (h : ∀ ls ∈ recs, ∀ l ∈ ls, 0 ≤ l.2) :
-    (run {} (events recs)).rpl = -1 ↔ allPairs (recs.map (·.map Prod.snd)) = [] := by
-  rw [run_rpl_closed recs {} h]
-  refine feed_unset_eq_unset _ (allPairs_nonneg _ ?_)
-  intro ds hds d hd
-  obtain ⟨ls, hls, rfl⟩ := List.mem_map.mp hds
-  obtain ⟨l, hl, rfl⟩ := List.mem_map.mp hd
-  exact h ls hls l hl
+/-- regressions, the witnesses of the retired finding: `>A\nACGT\nAC\n>B\nACGTAC\n` (one-line record longer than `rpl`),
+    `>A\nAC\nACGT\n` (longer line where `rpl` is initialised), `>A\nACGT\nACGTA` (longer unterminated last line),
+    `>A\nACGT\nA CG\n` (blank in a last line under `bpl = rpl + 1`): the tracker ends invalidated (0, 0) on each -/
+theorem tracker_rejects_former_exceptions :
+    ((runFile {} [[⟨5, 4, true⟩, ⟨3, 2, true⟩], [⟨7, 6, true⟩]]).rpl = 0 ∧ (runFile {} [[⟨5, 4, true⟩, ⟨3, 2, true⟩], [⟨7, 6, true⟩]]).bpl = 0) ∧
+    ((runFile {} [[⟨3, 2, true⟩, ⟨5, 4, true⟩]]).rpl = 0 ∧ (runFile {} [[⟨3, 2, true⟩, ⟨5, 4, true⟩]]).bpl = 0) ∧
+    ((runFile {} [[⟨5, 4, true⟩, ⟨5, 5, false⟩]]).rpl = 0 ∧ (runFile {} [[⟨5, 4, true⟩, ⟨5, 5, false⟩]]).bpl = 0) ∧
+    ((runFile {} [[⟨5, 4, true⟩, ⟨5, 3, true⟩]]).rpl = 0 ∧ (runFile {} [[⟨5, 4, true⟩, ⟨5, 3, true⟩]]).bpl = 0) := by decide
 
-/-- **Non-final lines (full strength, every record, every line):** `rpl = p > 0` ⇒ every terminated line that is followed by another
-    terminated line of its record has exactly `p` residues. This is the `FullLines` hypothesis of the reverse-window theorems for every
-    window whose start lies on a line the record really has. -/
-theorem tracker_nonfinal_lines_have_rpl (recs : List (List (Int × Int))) (p : Int) (hp : 0 < p) (h : ∀ ls ∈ recs, ∀ l ∈ ls, 0 ≤ l.2)
-    (hr : (run {} (events recs)).rpl = p) : ∀ ls ∈ recs, ∀ r ∈ (ls.map Prod.snd).dropLast, r = p := by
-  obtain ⟨q, rest, he, hq, hrest⟩ := (tracker_rpl_iff recs p hp h).mp hr
-  have hall : ∀ x ∈ allPairs (recs.map (·.map Prod.snd)), x.1 = p := by
-    intro x hx; rw [he] at hx
-    rcases List.mem_cons.mp hx with rfl | hx
-    · exact hq
-    · exact (hrest x hx).1
-  intro ls hls r hr'
-  exact (allPairs_fst_iff _ p).mp hall (ls.map Prod.snd) (List.mem_map.mpr ⟨ls, hls, rfl⟩) r hr'
-
-/-- **Last lines:** `rpl = p > 0` ⇒ a record with ≥ 2 terminated lines that comes after another record with ≥ 2 terminated lines ends in a
-    line of at most `p` residues (so residue `start` lies on line `(start−1)/p` there). -/
-theorem tracker_last_line_le_rpl (pre post : List (List (Int × Int))) (ls : List (Int × Int)) (p : Int) (hp : 0 < p)
-    (h : ∀ x ∈ pre ++ ls :: post, ∀ l ∈ x, 0 ≤ l.2) (hpre : ∃ x ∈ pre, 2 ≤ x.length) (h2 : 2 ≤ ls.length)
-    (hne : ls.map Prod.snd ≠ []) (hr : (run {} (events (pre ++ ls :: post))).rpl = p) :
-    (ls.map Prod.snd).getLast hne ≤ p := by
-  rw [run_rpl_closed _ {} h] at hr
-  have e : (pre ++ ls :: post).map (·.map Prod.snd) = pre.map (·.map Prod.snd) ++ ls.map Prod.snd :: post.map (·.map Prod.snd) := by simp
-  rw [e] at hr
-  refine last_line_le _ _ _ p hp ?_ ?_ (by simpa using h2) hne hr
-  · rw [← e]; intro ds hds d hd
-    obtain ⟨x, hx, rfl⟩ := List.mem_map.mp hds
-    obtain ⟨l, hl, rfl⟩ := List.mem_map.mp hd
-    exact h x hx l hl
-  · obtain ⟨x, hx, hx2⟩ := hpre
-    exact ⟨x.map Prod.snd, List.mem_map.mpr ⟨x, hx, rfl⟩, by simpa using hx2⟩
-
-/-- the two exceptions are real (and are the only ones, by `tracker_rpl_iff`): a one-line record longer than `rpl`
-    (`>A\nACGT\nAC\n>B\nACGTAC\n`: rpl = 4, bpl = 5 kept, B's line has 6), and the line at which `rpl` is initialised
-    (`>A\nAC\nACGT\n`: rpl = 2 kept, the last line has 4) -/
-theorem tracker_exceptions_are_real :
-    ((run {} (events [[(5, 4), (3, 2)], [(7, 6)]])).rpl = 4 ∧ (run {} (events [[(5, 4), (3, 2)], [(7, 6)]])).bpl = 5) ∧
-    ((run {} (events [[(3, 2), (5, 4)]])).rpl = 2 ∧ (run {} (events [[(3, 2), (5, 4)]])).bpl = 3) := by decide
-
-/-- non-vacuity: `>A\nACGT\nACGT\nAC\n>B\nACGT\nA\n` ends with rpl = 4, bpl = 5; its pairs are (4,4), (4,2), (4,1) -/
-example : (run {} (events [[(5, 4), (5, 4), (3, 2)], [(5, 4), (2, 1)]])).rpl = 4 ∧
-    allPairs ([[(5, 4), (5, 4), (3, 2)], [(5, 4), (2, 1)]].map (·.map Prod.snd)) = [(4, 4), (4, 2), (4, 1)] := by decide
+/-- non-vacuity: `>A\nACGT\nACGT\nAC\n>B\nACGTAC`-like clean file `>A\nACGT\nACGT\nAC\n>B\nACGT\nA` (last line unterminated): rpl = 4, bpl = 5 -/
+example : (runFile {} [[⟨5, 4, true⟩, ⟨5, 4, true⟩, ⟨3, 2, true⟩], [⟨5, 4, true⟩, ⟨1, 1, false⟩]]).rpl = 4 ∧
+    (runFile {} [[⟨5, 4, true⟩, ⟨5, 4, true⟩, ⟨3, 2, true⟩], [⟨5, 4, true⟩, ⟨1, 1, false⟩]]).bpl = 5 := by decide
 
 end tracker
 
